@@ -10,7 +10,10 @@ use std::{
     time::Instant,
 };
 
-pub const VERIF_ROOT: &str = "/verif";
+/// Root under which evidence/, replays/ and known_findings.json live (overridable for scratch work).
+pub fn verif_root() -> PathBuf {
+    PathBuf::from(std::env::var("VERIF_ROOT").unwrap_or_else(|_| "/verif".to_string()))
+}
 
 #[derive(Debug, Clone, Copy, PartialEq, Eq)]
 pub enum Tier {
@@ -156,7 +159,7 @@ pub struct KnownFindings {
 }
 
 pub fn load_known_findings() -> KnownFindings {
-    let path = PathBuf::from(VERIF_ROOT).join("known_findings.json");
+    let path = verif_root().join("known_findings.json");
     match std::fs::read_to_string(&path) {
         Ok(s) => serde_json::from_str(&s).unwrap_or_else(|e| {
             eprintln!("MACHINERY: cannot parse {}: {e}", path.display());
@@ -193,7 +196,7 @@ pub fn finish(ctx: &Ctx, outcome: Outcome) -> i32 {
         }
     }
 
-    let replay_dir = PathBuf::from(VERIF_ROOT).join("replays").join(&ctx.prop);
+    let replay_dir = verif_root().join("replays").join(&ctx.prop);
     let _ = std::fs::create_dir_all(&replay_dir);
     let mut replay_paths = Vec::new();
     for (v, n) in all.iter() {
@@ -231,7 +234,7 @@ pub fn finish(ctx: &Ctx, outcome: Outcome) -> i32 {
         "wall_s": wall,
         "violations": new_violations.len(),
     });
-    let ev_dir = PathBuf::from(VERIF_ROOT).join("evidence");
+    let ev_dir = verif_root().join("evidence");
     let _ = std::fs::create_dir_all(&ev_dir);
     let ev_path = ev_dir.join(format!("{}.json", ctx.prop));
     if let Err(e) = std::fs::write(&ev_path, serde_json::to_string_pretty(&evidence).unwrap()) {
